@@ -25,7 +25,8 @@ def group_phases(phases: list[dict]) -> list[list[dict]]:
 
 
 def run_history(project: dict, phases: list[dict], *, world: World | None = None, keep_world=False,
-                commit_hooks=None, log_state=True, policy="random") -> dict:
+                commit_hooks=None, gate_hooks=None, report_hooks=None, log_state=True,
+                policy="random") -> dict:
     """Run a whole history.  Returns dict(events, runs=[per-lifetime summaries], world)."""
     own = world is None
     if world is None:
@@ -48,6 +49,8 @@ def run_history(project: dict, phases: list[dict], *, world: World | None = None
                 ctl=ctl,
                 during=first.get("during"),
                 commit_hooks=commit_hooks,
+                gate_hooks=gate_hooks,
+                report_hooks=report_hooks,
                 log_state=log_state,
                 fresh=bool(first.get("fresh", False)),
             )
